@@ -125,7 +125,7 @@ Value& MemberINSERTExpression::value(Context& ctx) const
       case Type::INTEGER:
         if (a1_type == Type::NUMERIC)
         {
-          rv->insert(rv->begin() + p, Value(Integer(*a1.numeric())));
+          rv->insert(rv->begin() + p, Value(Value::toInteger(*a1.numeric())));
           return val;
         }
         else if (a1.type() == Type::NO_TYPE)
